@@ -2,7 +2,8 @@
 
 Spec: spec/TMMConn.tla (operators), spec/TMMConnSys.tla (state machine), spec/TMReactorAlphabet.tla
 (hostile message-class alphabet of the reactors); trace specs: spec/trace/TMMConnTrace.tla,
-spec/trace/TMReactorTrace.tla; harnesses (overlay): harness/inpkg/p2p/conn, consensus, mempool/v0,
+spec/trace/TMReactorTrace.tla, spec/trace/TMPeerGossipTrace.tla (hostile sequences: spec/TMPeerGossip.tla,
+spec/TMPeerGossipSys.tla); harnesses (overlay): harness/inpkg/p2p/conn, consensus, mempool/v0,
 evidence, blockchain/v0, statesync, p2p/pex  zz_verif_c17_test.go.
 
 Connection half: TLC explores TMMConnSys exhaustively; its state graph, simulated behaviours and the
@@ -275,9 +276,12 @@ def run(ctx):
                    "weakened specs, seeded random lock-step / concurrent / hostile runs with random configurations; an "
                    "observation is distinct by (event, arguments, projected post-state). hostile half: one real execution "
                    "per (reactor, message kind, field class, peer-state class) of the TLC-enumerated alphabet, distinct by "
-                   "(case, outcome)" % ("{0,3,6}" if quick else "{0,1,2,3,5,6}", 1 if quick else 2))
+                   "(case, outcome). sequences: the targeted sequences of TMPeerGossip (bit-array message x size x state-setting prefix), "
+                   "the weakened-spec counterexample and simulated behaviours, each on a fresh connection with the node's gossip "
+                   "goroutines running; distinct by (message, reaction)" % ("{0,3,6}" if quick else "{0,1,2,3,5,6}", 1 if quick else 2))
     truncated = any(c.get("unit") is None for c in cov.get("conn", {}).get("process_crashes", [])) or \
-        any(c.get("unit") is None for p in cov.get("reactors", {}).get("per_reactor", {}).values() for c in p["process_crashes"])
+        any(c.get("unit") is None for p in cov.get("reactors", {}).get("per_reactor", {}).values() for c in p["process_crashes"]) or \
+        any(c.get("unit") is None for c in cov.get("sequences", {}).get("process_crashes", []))
     # the replay graphs are always replayed completely; the alphabet is executed completely in the thorough tier,
     # the quick tier executes the selection described in cases_of_reactors_without_harness_or_outside_tier
     cov["exhaustive"] = (not quick) and not truncated and only == ""
